@@ -367,11 +367,16 @@ def joinLines : List Line → List Char
   | [l] => l
   | l :: ls => l ++ '\n' :: joinLines ls
 
+/-- `@@ -l,s +r,t @@` -/
+def hunkHeader (h : Hunk) : Line :=
+  ['@', '@', ' ', '-'] ++ (natText h.leftLine ++ ',' :: (natText h.leftSize ++ ' ' :: ('+' ::
+    (natText h.rightLine ++ ',' :: (natText h.rightSize ++ ' ' :: ['@', '@'])))))
+
+/-- the lines `hunk.writeTo` prints (each is followed by a newline) -/
+def hunkLines (h : Hunk) : List Line := hunkHeader h :: h.body.map fun p => p.1 :: p.2
+
 /-- `hunk.writeTo` -/
-def renderHunk (h : Hunk) : List Char :=
-  ['@', '@', ' ', '-'] ++ natText h.leftLine ++ [','] ++ natText h.leftSize ++ [' ', '+'] ++
-    natText h.rightLine ++ [','] ++ natText h.rightSize ++ [' ', '@', '@', '\n'] ++
-    h.body.flatMap (fun p => p.1 :: p.2 ++ ['\n'])
+def renderHunk (h : Hunk) : List Char := (hunkLines h).flatMap fun l => l ++ ['\n']
 
 def renderHunks (hs : List Hunk) : List Char := hs.flatMap renderHunk
 
@@ -433,8 +438,7 @@ def applyHunks (hs : List Hunk) (a : List Line) : Option (List Line) := applyHun
 /-! parsing of the rendered text -/
 
 def parseNatChars (cs : List Char) : Option Nat :=
-  if cs.isEmpty then none
-  else cs.foldlM (fun acc c => if c.isDigit then some (acc * 10 + (c.toNat - '0'.toNat)) else none) 0
+  if cs = [] ∨ ¬ cs.all Char.isDigit then none else some (Nat.ofDigitChars 10 cs 0)
 
 def splitAtChar (c : Char) : List Char → Option (List Char × List Char)
   | [] => none
@@ -443,16 +447,31 @@ def splitAtChar (c : Char) : List Char → Option (List Char × List Char)
 def stripPrefix (p : List Char) (l : List Char) : Option (List Char) :=
   if p.isPrefixOf l then some (l.drop p.length) else none
 
-/-- `@@ -l,s +r,t @@` -/
-def parseHeader (l : Line) : Option (Nat × Nat × Nat × Nat) := do
-  let r ← stripPrefix ['@', '@', ' ', '-'] l
-  let (l1, r) ← splitAtChar ',' r
-  let (s1, r) ← splitAtChar ' ' r
-  let r ← stripPrefix ['+'] r
-  let (l2, r) ← splitAtChar ',' r
-  let (s2, r) ← splitAtChar ' ' r
-  if r ≠ ['@', '@'] then none
-  pure (← parseNatChars l1, ← parseNatChars s1, ← parseNatChars l2, ← parseNatChars s2)
+/-- `@@ -l,s +r,t @@` → `(l, s, r, t)` -/
+def parseHeader (l : Line) : Option (Nat × Nat × Nat × Nat) :=
+  match stripPrefix ['@', '@', ' ', '-'] l with
+  | none => none
+  | some r =>
+    match splitAtChar ',' r with
+    | none => none
+    | some (l1, r) =>
+      match splitAtChar ' ' r with
+      | none => none
+      | some (s1, r) =>
+        match stripPrefix ['+'] r with
+        | none => none
+        | some r =>
+          match splitAtChar ',' r with
+          | none => none
+          | some (l2, r) =>
+            match splitAtChar ' ' r with
+            | none => none
+            | some (s2, r) =>
+              if r ≠ ['@', '@'] then none
+              else
+                match parseNatChars l1, parseNatChars s1, parseNatChars l2, parseNatChars s2 with
+                | some a, some b, some c, some d => some (a, b, c, d)
+                | _, _, _, _ => none
 
 /-- Lines of the rendered diff → hunks. A line starting with `@` opens a hunk; other lines must
 start with ' ', '+' or '-'. -/
